@@ -263,7 +263,7 @@ def extend_schema(
                 builder.build_type(op_def.type)
             )
 
-    schema = Schema(
+    extended = Schema(
         query_type=operation_types["query"],
         mutation_type=operation_types["mutation"],
         subscription_type=operation_types["subscription"],
@@ -271,6 +271,10 @@ def extend_schema(
         directives=directives,
         nodes=(schema.nodes or []) + (schema_exts or []),  # type: ignore
     )
+    # The schema wide default resolver and the resolver registries are part
+    # of the schema being extended.
+    extended._copy_resolver_registries(schema)
+    schema = extended
 
     if schema_directives is not None:
         schema = apply_schema_directives(schema, schema_directives)
